@@ -108,6 +108,7 @@ def run(chk):
         st["_nt"], st["_np"] = nt, np_
         classes, xf, xm = concretise(st)
         g = Dex(classes, extra_fields=xf, extra_methods=xm)
+        g.layout['string_data_order'] = (None, 'reverse', 'interleave')[n % 3]
         raw = g.build()
         case = dict(fields=sorted(map(repr, st["fields"])), methods=sorted(map(repr, st["methods"])), ghosts=st["ghosts"], withB=st["withB"])
         try:
@@ -298,6 +299,7 @@ def random_model_record(dex, rnd, max_classes):
             M.append((cn, n, p, direct, has, fl))
         classes.append(c)
     g = Dex(classes)
+    g.layout['string_data_order'] = rnd.choice([None, None, 'reverse', 'interleave'])      # string ids only store offsets
     raw = g.build()
     d = dex.DEX(raw)
     # ranks: order-isomorphic integers
